@@ -6,6 +6,14 @@ VERIF = os.path.dirname(os.path.dirname(os.path.abspath(__file__)))
 
 # id -> (category, technique, text, note)
 CLAIMS = {
+    'C10': ('other',
+            'static analysis: path-condition classification of every raise / assert-unreachable site in the decode, render and assemble closures, with deadness decided on the statically expanded opcode table; always-raising-construct lint; structural truncation and loop-progress rules',
+            'Every raise and bare-name belief site is shown caught (IOError in the decoder), documented (ValueError in the assembler), dead by contradictory guards, or dead because '
+            'no live row of the opcode table satisfies its table-evaluable guards (afs kinds, operand kinds, sd values, ModRM displacement kinds, SSE name patterns, x87 operand '
+            'counts); otherwise it is reported. Also: mandatory-prefix validity guard, operand-list subscripts of __str__ vs decoded operand counts, register-table keys of '
+            'dict_to_ad, every stream read inside the try, bounds check before each read, progress of every decoder loop.',
+            'Not decided: implicit KeyError/IndexError from data-dependent subscripts outside the table-exhaustiveness cases; the LALR automaton. 9 known findings (NEVER sites on '
+            'invalid prefix combinations, INVALID-prefix rows, fcom/fcomp DC forms, fstp DB /7 register form, movq NEVER and arg2txt TODO in the assembler).'),
     'C06': ('other',
             'static analysis: operator vocabulary of the lifter (from E4 templates, with arities) cross-checked against the evaluator dispatch table and each evaluator\'s operand subscripts; always-raising-construct lint with a small fixed-width-integer type inference; template of the cast/lookup code',
             'Every operator string the lifter builds either has a constant evaluator reading no more operands than the lifter passes, or is kept symbolic by the membership '
